@@ -272,6 +272,58 @@ async fn episode(p: &EpParams) -> EpReport {
             }
         }
     }
+    // one walk in five ends with a push subscription that is deleted while a page of 30 messages is
+    // being pushed to a slow endpoint (every POST is answered after 2 s): pushing stops with the
+    // deletion, the rest of the page is not POSTed any more
+    if rng.chance(1, 5) {
+        if let Some(t) = topics.iter().find(|t| live_topic.contains_key(*t)).cloned() {
+            let pname = if t.starts_with("projects/p1/") { sub_name(1, 77) } else { sub_name(2, 77) };
+            if cx.create_sub_full(&pname, &t, 60, Some(&eps[0].url), HashMap::new()).await.is_ok() {
+                let page: Vec<Msg> = (0..30).map(|i| Msg::tagged(&format!("pg{}", i))).collect();
+                for m in &page {
+                    eps[0].set_script(&m.tag, vec![Behaviour::Late(2, 200); 3]);
+                    allowed.insert((m.tag.clone(), pname.clone()), 0);
+                }
+                // (the other live subscriptions of the topic get the page as well)
+                if cx.publish(&t, &page).await.is_ok() {
+                    let inc = live_topic.get(&t).copied().unwrap_or(0);
+                    for (n, sb) in subs.iter_mut() {
+                        if sb.topic == t && sb.topic_inc == inc {
+                            for m in &page {
+                                sb.expect.push(m.tag.clone());
+                                if let Some(e) = sb.endpoint.filter(|e| *e < 2) {
+                                    allowed.insert((m.tag.clone(), n.clone()), e);
+                                }
+                            }
+                        }
+                    }
+                }
+                let mut seen = 0;
+                for _ in 0..6000 {
+                    tokio::time::sleep(Duration::from_millis(1)).await;
+                    seen = eps[0].posts().iter().filter(|r| r.sub == pname).count();
+                    if seen >= 3 {
+                        break;
+                    }
+                }
+                if seen >= 3 && seen < 30 && cx.delete_sub(&pname).await.is_ok() {
+                    let t_del = w.vt();
+                    for _ in 0..5 {
+                        tokio::time::sleep(Duration::from_secs(INTERVAL_S)).await;
+                        w.barrier().await;
+                    }
+                    let late = eps[0].posts().iter().filter(|r| r.sub == pname && r.vt_begin > t_del + 20 * MS).count();
+                    if late > 0 {
+                        rep.viol("C14", "C14:post-after-delete:page-in-flight", format!("{} message(s) of a page of 30 were POSTed for {} more than 20 ms after its DeleteSubscription had returned ({} had been POSTed before)", late, short(&pname), seen));
+                    }
+                    rep.inc("deleted_while_a_page_was_in_flight");
+                } else {
+                    let _ = cx.delete_sub(&pname).await;
+                }
+                steps.push("page-in-flight-delete".into());
+            }
+        }
+    }
     // a few more rounds of silence; longer (bounded) while a POST that has to come is still missing
     for round in 0..60 {
         tokio::time::sleep(Duration::from_secs(INTERVAL_S)).await;
